@@ -647,6 +647,10 @@ class Intrinsics:
         if isinstance(a, Const) and isinstance(a.v, str) or isinstance(b, Const) and isinstance(b.v, str):
             # comparison with a string literal (type tags): structural
             return [(st, Bv(ta == tb))]
+        if (isinstance(a, Z) and a.meta.get("plain") and a.hint in ("str", "bytes")) or \
+                (isinstance(b, Z) and b.meta.get("plain") and b.hint in ("str", "bytes")):
+            # strings / bytes (hex digests, blobs): equality is equality of the characters
+            return [(st, Bv(ta == tb))]
         # values that may be (or contain) synced nodes compare through their plain views [N-VIEW]
         eng.note("[N-VIEW]")
         st.event("pyeq", ta, tb)
